@@ -53,7 +53,7 @@ def meta(tier):
                 'inside, includer zone and local region resumed, mute state carried) and, for scope/zone-neutral blocks cut while '
                 'GLOBAL is selected, differentially against the real assembly of the unsplit program; plus a placement product '
                 '(unique / duplicated (as a copy and as a symbolic link) / missing file, same directory twice, file included twice, self-include, nested include '
-                'across directories); plus every include graph over three files (main includes one or two, the others nothing or one of the three; cycles, self-includes, diamonds) x each file with or without an #ifndef include guard, accepted iff no file is reached twice; plus every sequence of up to 3 live / dead (#ifdef, #if 0, #else) includes of two files and a missing one: a dead #include includes nothing, looks nothing up, counts for nothing; non-trivial = split whose moved block is non-empty and whose program mentions a label; '
+                'across directories); plus every include graph over three files (main includes one or two, the others nothing or one of the three; cycles, self-includes, diamonds) x each file with or without an #ifndef include guard, accepted iff no file is reached twice; plus every sequence of up to 3 live / dead (#ifdef, #if 0, #else) includes of two files and a missing one: a dead #include includes nothing, looks nothing up, counts for nothing; plus an included file that is a symbolic link, included once / twice / through two includers, from the main or a search directory; non-trivial = split whose moved block is non-empty and whose program mentions a label; '
                 'states = distinct (program, cut) reference states',
         'bounds': {'alphabet': [R.render(u).strip().replace('\n', ' / ') for u in sigma(0)], 'length': '4 (all units)' if q else '4 (all units), 5 (9 core units)',
                    'cuts': 'all 0<=i<j<=L, nested all i<=k<l<=j (quick: nested only for L<=3)'},
@@ -121,6 +121,7 @@ def shard(acc, tier, idx, n):
     placements(acc, idx, n)
     include_graphs(acc, idx, n)
     dead_includes(acc, idx, n)
+    linked_includes(acc, idx, n)
 
 
 def judge_equal(spec, outs):
@@ -287,6 +288,45 @@ def dead_includes(acc, idx, n):
                 acc.state(('d', seq, wname))
                 if ctr % 101 == 0:
                     acc.sample({'files': {k: R.render(v) for k, v in files.items()}, 'reference': spec})
+
+
+def linked_includes(acc, idx, n):
+    """An included file that is a symbolic link is a file like any other: included once it is pasted in place, reached a second time
+    (directly, through two includers, from another directory) it is rejected."""
+    ctr = 0
+    table = [('data', 1, [0xAA, 0xBB])]
+    shapes = {
+        'once': [('include', 'tables.asm')],
+        'twice directly': [('include', 'tables.asm'), ('include', 'tables.asm')],
+        'through two includers': [('include', 'pa.asm'), ('include', 'pb.asm')],
+        'directly and through an includer': [('include', 'tables.asm'), ('include', 'pa.asm')],
+        'through an includer and directly': [('include', 'pb.asm'), ('include', 'tables.asm')],
+    }
+    for (sname, incs), where, linked in itertools.product(shapes.items(), ('', 'd1'), (False, True)):
+        ctr += 1
+        if ctr % n != idx:
+            continue
+        tdir = where + '/' if where else ''
+        files = {'main.asm': [('data', 1, [0x50])] + incs + [('data', 1, [0xEE])], tdir + 'tables.asm': table,
+                 'pa.asm': [('data', 1, [0x61]), ('include', 'tables.asm')], 'pb.asm': [('data', 1, [0x71]), ('include', 'tables.asm')]}
+        dirs = (where,) if where else ()
+        ref = R.RefAsm(PARAMS, files, 'main.asm', dirs).run()
+        texts = R.render_files(files)
+        if linked:
+            texts['real/tables_v2.asm'] = texts[tdir + 'tables.asm']
+            texts[tdir + 'tables.asm'] = '@symlink:' + ('../' if where else '') + 'real/tables_v2.asm'
+        case = Case(ISA, texts, incdirs=dirs)
+        out = acc.run(case)
+        acc.transition()
+        if ref.status == 'DC':
+            acc.dc(ref.reason)
+            continue
+        spec = expect_spec(ref)
+        msg = judge_expect(spec, [out])
+        if msg:
+            acc.violation([case], spec, f'tables.asm ({"a symbolic link" if linked else "a regular file"} in {where or "the main directory"}) included {sname}: {msg}', [out])
+        acc.judge(clause='placement-accepted' if ref.status == 'OK' else 'placement-rejected', nontrivial_key=('link', sname, where, linked))
+        acc.state(('link', sname, where, linked))
 
 
 def judge(spec, outcomes):
